@@ -40,14 +40,14 @@ func Subjects(thorough bool) []Subject {
 		}
 		return root
 	}
-	for _, n := range shapes.Nodes2(false) {
+	for _, n := range shapes.Nodes2(0) {
 		k := class(n.Name, n.Root)
 		if n.Depth == 0 || (n.Depth == 1 && (thorough || perClass[k] < 2)) {
 			perClass[k]++
 			out = append(out, Subject{Name: n.Name, Dim: 2, B2: n.Build})
 		}
 	}
-	for _, n := range shapes.Nodes3(false) {
+	for _, n := range shapes.Nodes3(0) {
 		k := class(n.Name, n.Root)
 		if n.Depth == 0 || (n.Depth == 1 && (thorough || perClass[k] < 2)) {
 			perClass[k]++
